@@ -9,7 +9,7 @@
    The temporary-file clause (unique name, mode 0600) is decided by the correspondence check only. *)
 From Coq Require Import String.
 From LV Require Import Base.Buf Conf.ConfModel Conf.ConfSpec Conf.ConfInst Conf.ConfTables Conf.ConfLine Conf.ConfSafe.
-From LV Require Import Conf.ConfLife Conf.ConfFind Conf.ConfSpawn Conf.ConfInstProofs.
+From LV Require Import Conf.ConfLife Conf.ConfFind Conf.ConfSpawn Conf.ConfInstProofs Conf.ConfTerm.
 Local Open Scope Z_scope.
 
 (* every anchor of tools/gen_c11.py was found in the source tree *)
@@ -46,6 +46,24 @@ Theorem C11_conf_no_fault :
       end.
 Proof. exact parse_ok. Qed.
 Print Assumptions C11_conf_no_fault.
+
+(* termination, for the part that does not rest on the descriptor limit of the file system: a file without a
+   '%' opens no further file, and fuel 2 + its length suffices (one unit of fuel = one fgets of the reading
+   loop).  For files with %include see C09_conf_trace (the parse ends when the specification's walk ends). *)
+Theorem C11_terminates_plain :
+  forall (W V : Type) (handler : Z -> harg -> Z -> W -> Z * W)
+         (expand : list Z -> V -> list Z * V * list (list Z)) (preproc_out fs : list Z -> option (list Z))
+         (progname : list Z),
+    (forall n content, fs n = Some content -> Forall is_byte content) ->
+    (forall cmd out, preproc_out cmd = Some out -> Forall is_byte out) ->
+    expand_fits V expand ->
+    expand_keeps_include V expand ->
+    forall (hw : Z) (c : conf V) (w : W) (name content : list Z) (fuel : nat),
+      cinvh V hw c -> t_idx (ftb V c) = 0 -> fs name = Some content -> nopct content ->
+      (length content + 2 <= fuel)%nat ->
+      exists r, parse W V handler expand preproc_out fs progname fuel c w name = Ok r.
+Proof. exact parse_terminates_plain. Qed.
+Print Assumptions C11_terminates_plain.
 
 (* the arithmetic behind it, with the widths and initial capacities of the source tree, for all four tables
    and any number of pushes *)
